@@ -58,6 +58,16 @@ Theorem C35_uploaded_sound : forall U L cs st,
 Proof. exact uploaded_sound. Qed.
 Print Assumptions C35_uploaded_sound.
 
+(* Property C28 for shipper uploads: after any history of syncs, at EVERY crash point k of
+   the next sync (whatever its fault), a block whose meta.json is in the bucket has every
+   file that meta.json lists, with the recorded size. *)
+Theorem C35_every_crash_point_visible_complete : forall U L cs c st res,
+  wf_univ_b U = true -> after_syncs U L ([], None) cs = Some st ->
+  sync U L c (snd st) (fst st) = Some res ->
+  forall k, visible_complete (bapply_ops (fst st) (firstn k (r_ops res))).
+Proof. exact sync_visible_complete. Qed.
+Print Assumptions C35_every_crash_point_visible_complete.
+
 (* Link to the check: a case carries what the real Shipper did in every sync
    (mutating operations, bucket listing after each, returned nil?, meta file
    afterwards). If the model reproduces it, the predicate evaluated on those
